@@ -14,6 +14,7 @@ LEVEL_TEXT = ("For generated subsets of the read-modifying options the real tool
               "R2 only, shared options both, -Q/-L overriding R2 only). (a) must equal (b) byte for byte and (c), (d) record by record; the hooked "
               "modifier events of (a) must follow the canonical class order per mate with every stage receiving exactly the previous stage's output.")
 LEVEL_TEXT += ' A separate sub-case gives -u/-U values in both orders on reads shorter than both cuts and reads the order off the {cut_prefix}/{cut_suffix} (and {r1.…}/{r2.…}) placeholders of --rename; --quality-base 64 travels with every invocation of a chain.'
+LEVEL_TEXT += ' Headers with a TAB between id and comment; the rename step is judged by its definition ({id}, {comment}, {header}) on the hooked events.'
 LEVEL_NOTE = ("Trusted base: the real tool applied one operation at a time (each single operation is judged by C03/C13/C14/C01), independent "
               "parser. Templates that carry information across stages ({adapter_name}, {cut_prefix}) are not used in the chain; --poly-a is "
               "excluded from the R2 projection because R2 gets poly-T trimming, which has no single-end spelling.")
